@@ -87,6 +87,46 @@ func restoreFaultPart(run *report.Run, st *Setup, cases, faultsPerCase int, kind
 		if faultsPerCase > 0 && len(keys) > faultsPerCase {
 			keys = keys[:faultsPerCase]
 		}
+		// a further fault kind: every file blob of one directory output is gone while its tree
+		// blob (and the target result) are still there - what an LRU eviction of old blobs does
+		var dirFileBlobs [][]string
+		for k, b := range store {
+			if !strings.HasPrefix(k, "target/") {
+				continue
+			}
+			tr, err := audit.DecodeTargetResult(b)
+			if err != nil {
+				continue
+			}
+			for _, o := range tr.Outputs {
+				if o.Kind != "dir" {
+					continue
+				}
+				tb, ok := store["cas/"+o.Digest.Hash]
+				if !ok {
+					continue
+				}
+				t, err := audit.DecodeTree(tb)
+				if err != nil {
+					continue
+				}
+				set := map[string]bool{}
+				for _, d := range append([]audit.Directory{t.Root}, t.Children...) {
+					for _, f := range d.Files {
+						set["cas/"+f.Digest.Hash] = true
+					}
+				}
+				var fs []string
+				for f := range set {
+					fs = append(fs, f)
+				}
+				sort.Strings(fs)
+				if len(fs) > 0 {
+					dirFileBlobs = append(dirFileBlobs, fs)
+				}
+			}
+		}
+		sort.Slice(dirFileBlobs, func(a, b int) bool { return strings.Join(dirFileBlobs[a], ",") < strings.Join(dirFileBlobs[b], ",") })
 		memoSnap := map[string]string{}
 		for k, v := range env.Memo {
 			memoSnap[k] = v
@@ -103,6 +143,16 @@ func restoreFaultPart(run *report.Run, st *Setup, cases, faultsPerCase int, kind
 			victims := []string{k}
 			if double && r.Chance(1, 2) && len(keys) > 1 {
 				victims = append(victims, keys[(fi+1)%len(keys)])
+			}
+			if len(dirFileBlobs) > 0 && r.Chance(1, 4) {
+				fs := dirFileBlobs[r.Intn(len(dirFileBlobs))]
+				victims = append([]string{}, fs...)
+				if len(fs) > 2 && r.Chance(1, 2) {
+					victims = victims[:len(fs)-1] // all but one
+				}
+				fkind = "missing"
+				k = "cas/(all-file-blobs-of-a-dir-output)"
+				run.Count("fault_builds_with_all_file_blobs_of_a_dir_output_lost", 1)
 			}
 			for _, v := range victims {
 				p := filepath.Join(cache, filepath.FromSlash(v))
